@@ -1269,6 +1269,14 @@ func tokenOfClass(k int) string {
 		return "building=yes"
 	case 2:
 		return "渋谷スクランブル交差点=はい"
+	case 4:
+		return "k=" + strings.Repeat("v", 125) // 127 bytes: the longest one-byte uvarint length
+	case 5:
+		return "k=" + strings.Repeat("v", 126) // 128 bytes: the first two-byte uvarint length
+	case 6:
+		return "k=" + strings.Repeat("v", 253) // 255 bytes
+	case 7:
+		return "k=" + strings.Repeat("v", 254) // 256 bytes
 	default:
 		return "name=" + strings.Repeat("long-value-", 30) // > 127 bytes: two-byte length
 	}
